@@ -25,7 +25,7 @@
 (* fix: commits in /repo; the variants stay as regression models           *)
 (* (MC_Plan_asis.cfg must violate PlanInv).                                *)
 (***************************************************************************)
-EXTENDS Paths, Integers, FiniteSets, TLC
+EXTENDS Paths, FsPaths, Integers, FiniteSets, TLC
 
 CONSTANT Deviations
 
@@ -154,7 +154,10 @@ Insert(ctx, m, p, ent, checked, raw) ==
       occ == k \in DOMAIN m
       replaceOK == occ /\ dl /\ m[k].type = "implicit dir"
       par == AddParents(ctx, m, p, raw)
-  IN IF checked /\ occ /\ ~replaceOK THEN <<"collision", m>>
+      \* an implied directory (a tree directory at a path the distribution owns) never displaces a directory that is there
+      keepOK == occ /\ ent.type = "implicit dir" /\ IsDirEnt(m[k])
+  IN IF keepOK THEN <<"ok", m>>
+     ELSE IF checked /\ occ /\ ~replaceOK THEN <<"collision", m>>
      ELSE IF ~par[1] THEN <<"collision", m>>
      ELSE <<"ok", Put(par[2], k, ent)>>
 
@@ -210,20 +213,28 @@ TreeNodes(ctx, e) ==
   LET root == CleanRel(e.src) IN
   { n \in ctx.tree : IsPrefixPath(root, NodePath(n)) }
 
+(* directories that belong to the distribution (FsPaths.tla) *)
+FsOwned(p) == PathStr(p) \in FsOwnedPaths
+\* the implementation tests the tree's destination as written (cleaned, not made absolute)
+RawOwned(raw) == HasPrefix(raw, "/") /\ FsOwned(Norm(raw))
+
 TreeIns(ctx, e) ==
   LET root == CleanRel(e.src)
+      passOwner == ~RawOwned(e.dst)
+      own == IF passOwner THEN FiOwner(e.fi) ELSE "root"
+      grp == IF passOwner THEN FiGroup(e.fi) ELSE "root"
       one(n) ==
         LET p == Norm(e.dst) \o Rel(root, NodePath(n)) IN
         [p |-> p,
          ent |-> CASE n.kind = "dir" ->
-                      [type |-> "dir", src |-> "", owner |-> FiOwner(e.fi), group |-> FiGroup(e.fi),
+                      [type |-> IF FsOwned(p) THEN "implicit dir" ELSE "dir", src |-> "", owner |-> own, group |-> grp,
                        mode |-> IF e.fi.mode # 0 THEN e.fi.mode ELSE BitClear(n.mode, ctx.umask),
                        mt |-> n.mt, tag |-> "", size |-> 0]
                    [] n.kind = "link" ->
-                      [type |-> "symlink", src |-> n.link, owner |-> FiOwner(e.fi), group |-> FiGroup(e.fi),
+                      [type |-> "symlink", src |-> n.link, owner |-> own, group |-> grp,
                        mode |-> 0, mt |-> ctx.pmt, tag |-> "", size |-> 0]
                    [] OTHER ->
-                      [type |-> "file", src |-> n.p, owner |-> FiOwner(e.fi), group |-> FiGroup(e.fi),
+                      [type |-> "file", src |-> n.p, owner |-> own, group |-> grp,
                        mode |-> FileMode(ctx, e.fi, n.mode),
                        mt |-> IF ctx.pmtset THEN ctx.pmt ELSE n.mt, tag |-> "", size |-> n.size]]
       S == { one(n) : n \in TreeNodes(ctx, e) }
